@@ -410,8 +410,13 @@ def build_file(spec):
         kw = {}
         if spec.get("buffer") == "custom":
             kw["buffer_type"] = custom_buffer(spec.get("cols"), bool(spec.get("header")))
+        elif (spec.get("buffer") or "").startswith("datatype:"):
+            # the buffer class the public factory makes for a shipped data class (Interval, BedGraph, GFFEntry, GTFEntry), no header line
+            kw["buffer_type"] = bnp.io.get_bufferclass_for_datatype(_datacls(spec["buffer"].split(":")[1]))
         elif spec.get("buffer"):
             kw["buffer_type"] = _bufcls(spec["buffer"])
+        if "lazy" in spec:      # the same request in eager mode (lazy=False): the table is parsed at once
+            kw["lazy"] = spec["lazy"]
         if spec.get("chunk"):
             chunks = list(bnp.open(p, **kw).read_chunks(min_chunk_size=spec["chunk"]))
             if spec.get("which") == "all":
@@ -1336,6 +1341,18 @@ def file_spec(rng, fmt=None):
     if fmt != "bam" and "Matrix" not in (spec.get("buffer") or "") and rng.random() < 0.35:
         spec["chunk"] = rng.choice([16, 40, 64, 200])
         spec["which"] = rng.choice([0, 1, 2])
+    if not spec.get("buffer") and rng.random() < 0.2:
+        # the same file through the buffer class the public factory makes for the format's own data class
+        made = {"bdg": "BedGraph", "gff": "GFFEntry", "gtf": "GTFEntry", "bed": "Interval"}.get(fmt)
+        if made:
+            spec["buffer"] = "datatype:" + made
+            # (the factory's buffer classes skip comment lines before the table only: interior comment lines are GFF's own buffer's business)
+            spec["text"] = spec["text"].replace("##comment\r\n", "").replace("##comment\n", "").replace("\n##comment", "").replace("\r\n##comment", "")
+    if fmt != "bam" and rng.random() < 0.15:
+        # the same request in eager mode / explicitly lazy. (Not the phased genotype buffers: the generated genotype columns hold
+        # missing alleles, which the phased encodings refuse — lazily that is ONE field that raises when read, eagerly no table at all)
+        if not any(t in (spec.get("buffer") or "") for t in ("Phased", "VCFHaplotypeBuffer")):
+            spec["lazy"] = rng.choice([False, False, True])
     return spec
 
 
